@@ -56,6 +56,8 @@ func c15Family(tag string) []string {
 		"^" + tag + "a", "^" + tag + "a$", tag + "a", tag + "a$", "(?i)^" + tag + "a", "(?i)" + tag + "A", "^" + tag + "A",
 		"^" + tag + "a.", "^" + tag + `a\.`, "^" + tag + "a[.]", "^" + tag + "ab", "^" + tag + "a|b", "^(" + tag + "a|b)$",
 		tag + "a+", tag + "a*", "^" + tag + "[a-c]+$", "^" + tag + "[^a]", tag, "^" + tag, tag + "$",
+		// white space is significant in a pattern: padded siblings of the patterns above
+		"^" + tag + "a ", " ^" + tag + "a", "^" + tag + "a$\n", tag + "a\t", "\n" + tag + "a", tag + " ", "^" + tag + "a$ ",
 	}
 }
 
@@ -64,7 +66,8 @@ func c15Invalid(tag string) []string {
 }
 
 func c15Probes(tag string) []string {
-	return []string{tag + "a", tag + "A", "x" + tag + "a", tag + "ab", tag + "a.", tag + "ax", tag + "aa", tag, "b", "", tag + "b", tag + "abc", "x" + tag + "ax", tag + "c"}
+	return []string{tag + "a", tag + "A", "x" + tag + "a", tag + "ab", tag + "a.", tag + "ax", tag + "aa", tag, "b", "", tag + "b", tag + "abc", "x" + tag + "ax", tag + "c",
+		tag + "a ", " " + tag + "a", tag + "a\n", tag + " x"}
 }
 
 type c15Table struct {
@@ -175,7 +178,7 @@ func (p *c15) Run(w *lib.Worker, idx int, r *lib.Rand) lib.Case {
 						if round > 0 {
 							ot := fmt.Sprintf("r%dy", rr.Intn(round))
 							of := c15Family(ot)
-							one(rr, of[rr.Intn(len(of))], c15Probes(ot)[rr.Intn(14)])
+							one(rr, of[rr.Intn(len(of))], c15Probes(ot)[rr.Intn(len(c15Probes(ot)))])
 						}
 					}
 				}
